@@ -200,6 +200,8 @@ func describeAV(v AV) string {
 			return fmt.Sprint(x.val)
 		}
 		return x.cond
+	case avOpaque:
+		return x.desc
 	}
 	return fmt.Sprintf("%T", v)
 }
@@ -953,7 +955,11 @@ func (li *layoutInterp) packItem(st *lpath, dst avSlice, off *Lin, item AV, pos 
 				return nil
 			}
 			if inBuf {
-				li.addWrite(st, off, sl.len, "seg", sl.name, pos)
+				nm := sl.name
+				if o, ok := st.mem["name:"+sl.region].(avOpaque); ok {
+					nm = o.desc
+				}
+				li.addWrite(st, off, sl.len, "seg", nm, pos)
 			}
 			return sl.len
 		}
@@ -967,6 +973,9 @@ func (li *layoutInterp) packItem(st *lpath, dst avSlice, off *Lin, item AV, pos 
 	name := describeAV(it.inner)
 	if it.inner == nil {
 		name = it.path
+	}
+	if sl, ok := it.inner.(avSlice); ok && strings.HasPrefix(sl.region, "f:") {
+		name = strings.TrimPrefix(sl.region, "f:")
 	}
 	if inBuf {
 		li.addWrite(st, off, sz, "nested", name, pos)
@@ -1018,6 +1027,10 @@ func (li *layoutInterp) execCall(fn *ssa.Function, st *lpath, call *ssa.Call) []
 				return nil
 			}
 			if dst.region != "buf" {
+				// remember what the temporary holds
+				if strings.HasPrefix(src.region, "f:") {
+					st.mem["name:"+dst.region] = avOpaque{strings.TrimPrefix(src.region, "f:")}
+				}
 				st.vals[call] = avInt{bv: bvSrc("copied", w)}
 				return nil
 			}
@@ -1154,7 +1167,11 @@ func (li *layoutInterp) execCall(fn *ssa.Function, st *lpath, call *ssa.Call) []
 		okS.conds = append(okS.conds, "+string encodable")
 		fail.conds = append(fail.conds, "-string encodable")
 		if dst.region == "buf" {
-			li.addWrite(okS, dst.off, mx.lin, "seg", "encoded name", pos)
+			li.addWrite(okS, dst.off, mx.lin, "seg", "encoded "+describeAV(li.eval(st, cc.Args[2])), pos)
+		} else {
+			// remember what the temporary holds
+			okS.mem["name:"+dst.region] = avOpaque{"encoded " + describeAV(li.eval(st, cc.Args[2]))}
+			fail.mem["name:"+dst.region] = avOpaque{"encoded " + describeAV(li.eval(st, cc.Args[2]))}
 		}
 		okS.vals[call] = avTuple{newInt(mx.lin, wd, false, "n"), avOpaque{"nil"}}
 		fail.vals[call] = avTuple{newInt(linConst(0), wd, false, "n"), avOpaque{"err"}}
